@@ -54,6 +54,7 @@ class _SimFile:
         self._writing = any(c in mode for c in "wax+")
         self._pending = []
         self._closed = False
+        self._raw = False           # opened with buffering=0: write() is the system call, it may be short
 
     # -- writes
     def write(self, s):
@@ -62,6 +63,13 @@ class _SimFile:
         flt = fs._fault("write", self._rel, self._mode)
         if flt is not None:
             part = flt.get("partial")
+            if self._raw and len(s) > 1:
+                # an unbuffered write that runs out of room stores what still fits and says how much that was
+                # (the error comes with the *next* call): a short write, not an exception
+                k = max(1, int(len(s) * (part or 0.5)))
+                self._pending.append(s[:k])
+                fs.fired[-1] = fs.fired[-1] + ":short"
+                return k
             if part:
                 k = int(len(s) * part)
                 self._pending.append(s[:k])
@@ -283,6 +291,7 @@ class SimFS:
         self.clock = None           # the op's SimClock (file timestamps come from the simulated clock)
         self.disk_time = 1.7e9      # simulated time of the last timestamp handed out
         self.coord = None           # set while a partner invocation runs at the same time (see Coord)
+        self.mounts = ()            # top-level folders of the disk that are file systems of their own (EXDEV)
 
     def _sync(self):
         """A file-system event is about to happen: with a partner invocation running, wait for the token."""
@@ -366,6 +375,8 @@ class SimFS:
             kw["encoding"] = self.encoding
         real = _REAL_OPEN(file, mode, *a, **kw)
         sf = _SimFile(self, real, rel, mode)
+        if "b" in mode and ((len(a) >= 1 and a[0] == 0) or kw.get("buffering") == 0):
+            sf._raw = True
         self.open_files.add(sf)
         return sf
 
@@ -406,6 +417,14 @@ class SimFS:
             if self.killed:
                 return None
             self._sync()
+            if self.mounts:
+                ms = (rs or "").split(os.sep)[0] if rs is not None else None
+                md = (rd or "").split(os.sep)[0] if rd is not None else None
+                ms = ms if ms in self.mounts else ""
+                md = md if md in self.mounts else ""
+                if ms != md:
+                    self._event("rename-across-file-systems", rs, 0)
+                    raise OSError(_errno.EXDEV, os.strerror(_errno.EXDEV), os.fspath(src), None, os.fspath(dst))
             flt = self._fault("rename", rd if rd is not None else rs, "w")
             if flt is not None:
                 raise OSError(ERRNOS[flt["errno"]], os.strerror(ERRNOS[flt["errno"]]), os.fspath(src))
@@ -903,6 +922,12 @@ class World:
             dctx.rounding = getattr(_decimal, amb["decimal_rounding"])
             dctx.prec = int(amb.get("decimal_prec", dctx.prec))
             self.fired("ambient-decimal-context")
+        old_warn = None
+        if amb.get("warnings"):
+            # the host process runs with `-W error` / PYTHONWARNINGS=error / a test runner's filterwarnings=error
+            old_warn = list(_warnings.filters)
+            _warnings.simplefilter(amb["warnings"])
+            self.fired("ambient-warnings-" + amb["warnings"])
         if cfg.get("log"):
             import logging
             root = logging.getLogger()
@@ -1062,6 +1087,12 @@ class World:
                 setattr(_time, k, v)
             fs.clock = None
             dctx.rounding, dctx.prec = old_dec
+            if old_warn is not None:
+                _warnings.filters[:] = old_warn
+                try:
+                    _warnings._filters_mutated()
+                except AttributeError:
+                    pass
         out["stdout"] = so.n
         out["stderr"] = se.n
         out["stderr_text"] = se.text()[:2000]
